@@ -44,6 +44,15 @@ import Orb.Resample
     implementation chose (tag suffix `edge-count`).  Exact instance: the count may exceed the
     exact `⌊T/d⌋ + 1` by one only if `T/d` is within 1e-12 (relative) below an integer.
 
+  Zero-length hops between DISTINCT coordinates.  geo.Distance folds the longitude difference, so
+  the antimeridian pair `(180, lat) (-180, lat)` — the usual way of writing a line that crosses
+  the antimeridian — is a segment of length exactly 0 (`d·π/180` of 360 is bit for bit `2π`; the
+  twin's `geoF` uses the same + − × ÷ and reproduces the 0 bit for bit; no cosine is involved
+  because `0·cos = 0`).  The line JUMPS there: for the on-line / order clauses such a segment is
+  its two end points (`segsOfD`), not the planar segment across all longitudes; the spacing
+  clauses skip it (`pointAtArc`, `arcSeg` look at segments of positive length only) and take the
+  first / last VERTEX as the reference of the first / last point.
+
   Outside the quantifier (`skip`): d = NaN (neither `d > 0` nor `d ≤ 0`); d > 0 so small that
   `T/d ≥ 2^63` (the requested count is not representable as an `int`; Go's `int(x)` wraps to
   MinInt64 and `make` panics — there is no result of that size for any implementation);
@@ -72,9 +81,18 @@ def nearest (a b p : Pt β) : β × β :=
   let τ := if 0 < l then clamp01 (dot (vsub p a) (vsub b a) / l) else 0
   (τ, dsq p (lerp a b τ))
 
-def segsOf : List (Pt β) → List (Pt β × Pt β)
-  | a :: b :: rest => (a, b) :: segsOf (b :: rest)
-  | _ => []
+/-- the segments of the line for the on-line / order clauses, given the lengths `ds` the distance
+    function assigns to them.  A segment of length zero has no interior: it consists of its two
+    end points only — also when these differ as coordinates, which happens with geo.Distance on
+    the antimeridian pair `(180, lat) (-180, lat)` (the usual way of writing a line that crosses
+    the antimeridian; the longitude difference folds to exactly 0) and with the planar distance
+    when the squares underflow.  Such a hop becomes the two degenerate segments `(a, a)`, `(b, b)`:
+    the line JUMPS from `a` to `b`, the planar segment between them (all longitudes!) is not part
+    of it.  (The indices of `placeFrom` / `orderViolation` refer to this list; only their order matters.) -/
+def segsOfD : List (Pt β) → List β → List (Pt β × Pt β)
+  | a :: b :: rest, d :: ds =>
+    (if 0 < d then [(a, b)] else [(a, a), (b, b)]) ++ segsOfD (b :: rest) ds
+  | _, _ => []
 
 /-- is `p` within `tol2` (squared) of some segment? -/
 def onLine (segs : List (Pt β × Pt β)) (p : Pt β) (tol2 : β) : Bool :=
@@ -118,13 +136,21 @@ def arcSeg : List (Pt β) → List β → β → β → Option (Pt β × β)
 def arcTarget (total : β) (N k : Nat) : β :=
   if k == 0 then 0 else if k + 1 == N then total else (k : β) * total / ((N - 1 : Nat) : β)
 
-/-- first `k` whose point is not (within `tol2`) the point at arc length `k·total/(N-1)` -/
+/-- first `k` whose point is not (within `tol2`) the point at arc length `k·total/(N-1)`.
+    The reference for `k = 0` is the first vertex and for `k = N-1` (`N ≥ 2`) the last one — the
+    end-point clause, judged exactly before this one — and NOT `pointAtArc 0` / `pointAtArc total`:
+    these are the start / end of the first / last segment of POSITIVE length, which is a different
+    coordinate when the line begins / ends with a zero-length hop between distinct coordinates
+    (antimeridian pair under geo.Distance). -/
 def spacingViolation (ps : List (Pt β)) (ds : List β) (total : β) (N : Nat) (last : Pt β)
     (out : List (Pt β)) (tol2 : β) : Option Nat :=
+  let first := ps.head?.getD last
   let rec go : List (Pt β) → Nat → Option Nat
     | [], _ => none
     | p :: rest, k =>
-      if dsq p (pointAtArc ps ds 0 (arcTarget total N k) last) ≤ tol2 then go rest (k + 1) else some k
+      let ref := if k == 0 then first else if k + 1 == N then last
+        else pointAtArc ps ds 0 (arcTarget total N k) last
+      if dsq p ref ≤ tol2 then go rest (k + 1) else some k
   go out 0
 
 /-- first `k` for which the distance travelled to the `k`-th point — the segments before it in
@@ -161,7 +187,7 @@ def samplingCheck (dfc : Pt β → Pt β → β) (lip : β) (ps : List (Pt β)) 
   let s := tol * (total * stretchOf ps ds 0) + tolE * extentOf ps
   let tol2 := s * s
   let tolD := lip * s + lip * s + tol * total
-  let segs := segsOf ps
+  let segs := segsOfD ps ds
   let last := ps.getLast?.getD ⟨0, 0⟩
   match (out.zipIdx.find? fun (p, _) => !onLine segs p tol2) with
   | some (_, k) => some s!"on-line {k}"
